@@ -628,6 +628,21 @@ theorem commands_as_text (cs : List (Str × RouteDef))
   dsimp only
   cases hn : newTable env (cs.map (·.2)) <;> rfl
 
+/-- **commands_as_text_total**: `commands_as_text` for every float64 weight — a weight text such as `nan` or `-Inf`
+is a weight text like any other (`DefOK` is asked of the reader with NaN/±Inf mapped to 0, the flag `bad` records that
+the text denotes a non-finite value): `NewTable` on the text returns what `NewTableCustom` returns on the commands,
+`route: invalid weight` included -/
+theorem commands_as_text_total (cs : List (Str × RouteDef))
+    (h : ∀ x ∈ cs, DefOK (finPf pf) x.1 x.2 ∧ byteLen (printDef x.1 x.2) < maxToken) :
+    loadTableW env pf (scriptText cs) =
+      (match newTableW env (cs.map (fun x => ({ d := x.2, bad := nonFiniteTok pf x.1 } : WDef))) with
+       | .ok t => .ok t
+       | .error e => .error (.cmd e)) := by
+  unfold loadTableW
+  rw [parseW_scriptText pf cs h]
+  dsimp only
+  cases hn : newTableW env (cs.map (fun x => ({ d := x.2, bad := nonFiniteTok pf x.1 } : WDef))) <;> rfl
+
 /-- **text_refines_spec**: for every text `Parse` accepts, what `NewTable` makes of it is what the spec machine
 computes from the parsed commands — the table abstracts to the spec's map, or both stop with the same error -/
 theorem text_refines_spec {text : Str} {defs : List RouteDef} (h : parse pf text = .ok defs) :
@@ -639,6 +654,36 @@ theorem text_refines_spec {text : Str} {defs : List RouteDef} (h : parse pf text
   rw [h]
   dsimp only
   cases hn : newTable env defs with
+  | error e0 =>
+    rw [hn] at hr
+    refine ⟨?_, ?_, ?_⟩
+    · intro t ht; cases ht
+    · intro e he
+      injection he with he; injection he with he; subst he
+      exact hr.symm
+    · intro e he; cases he
+  | ok t0 =>
+    rw [hn] at hr
+    refine ⟨?_, ?_, ?_⟩
+    · intro t ht
+      injection ht with ht; subst ht
+      exact hr.symm
+    · intro e he; cases he
+    · intro e he; cases he
+
+/-- **text_refines_spec_total**: the same for every text and every float64 weight — what `NewTable` makes of a text
+(`loadTableW`) is what the spec machine with "a non-finite weight is refused" computes from the commands `Parse`
+reads (`parseW`); a parse error of `NewTable` is `Parse`'s own. This is the predicate stream `c05.text` evaluates
+on the implementation's output. -/
+theorem text_refines_spec_total {text : Str} {xs : List WDef} (h : parseW pf text = .ok xs) :
+    (∀ t, loadTableW env pf text = .ok t → specRunW env xs = .ok (abs t)) ∧
+    (∀ e, loadTableW env pf text = .error (.cmd e) → specRunW env xs = .error e) ∧
+    (∀ e, loadTableW env pf text ≠ .error (.parse e)) := by
+  have hr := refines_spec_total (env := env) xs
+  unfold loadTableW
+  rw [h]
+  dsimp only
+  cases hn : newTableW env xs with
   | error e0 =>
     rw [hn] at hr
     refine ⟨?_, ?_, ?_⟩
@@ -698,6 +743,11 @@ example : csEx.length = 9 ∧ (csEx.map (·.2.cmd)).eraseDups.length = 3 := by d
 example : (match loadTable C05Rebuild.env0 pfEx (scriptText csT), newTable C05Rebuild.env0 (csT.map (·.2)) with
     | .ok a, .ok b => a == b && !a.isEmpty | _, _ => false) = true := by decide +kernel
 example := commands_as_text (env := C05Rebuild.env0) csT csT_ok
+
+/-- `commands_as_text_total` on a list with the weight text `nan`: both entry points answer `invalid weight` -/
+example := commands_as_text_total (env := C05Rebuild.env0) csN csN_ok
+example : (match loadTableW C05Rebuild.env0 pfN (scriptText csN) with
+    | .error (.cmd .invalidWeight) => true | _ => false) = true := by decide +kernel
 
 end lang
 
@@ -914,6 +964,13 @@ example : ((apiRoutes C05Rebuild.tab0).filter (fun a => a.host == "h".toList && 
   decide +kernel
 example : (match loadTable envW pfW (apiRaw C05Rebuild.tab0), loadTable envW pfW (render C05Rebuild.tab0) with
     | .ok a, .ok b => a == b && !a.isEmpty | _, _ => false) = true := by decide +kernel
+/-- `text_refines_spec_total` is not vacuous: `parseW` reads the text with the `nan` weight as three commands, one of
+them flagged, and the spec machine refuses it like `NewTable` does -/
+example : (match parseW pfG textN with | .ok xs => xs.length == 3 && xs.any (·.bad) | _ => false) = true := by
+  decide +kernel
+example : (match parseW pfG textN with
+    | .ok xs => (match specRunW envW xs with | .error .invalidWeight => true | _ => false)
+    | _ => false) = true := by decide +kernel
 end examples
 
 end Fabio.Props.C05
